@@ -186,4 +186,10 @@ bounds); unreachable in the engine because `FEN_REGEX` is matched first -/
 example : Fen.validate_rank "éééééééé".toList 20 = none := by decide
 
 
+/-! axiom audit of the remaining `rs_*` theorems of this file -/
+#print axioms rs_isAsciiDigit_eq
+#print axioms rs_digit_or_one
+#print axioms rs_count_eq
+#print axioms rs_strLen_ascii
+
 end Inkayaku.Translated
